@@ -411,7 +411,7 @@ func topicID(frame []byte) int {
 func (x *c03) concurrentCases() {
 	c := x.c
 	r := c.Rng
-	n := 220
+	n := 170
 	if c.Thorough() {
 		n = 2500
 	}
